@@ -213,9 +213,15 @@ small_vector<T, S> &small_vector<T, S>::operator=(const small_vector &rhs)
       if (!std::is_trivially_default_constructible_v<T>)
       {
         if (!local_storage_used())
-          destroy_range(begin() + n, end());
+        {
+          if (n < size())
+            destroy_range(begin() + n, end());
+          else  // the elements in `[size(), n)` don't exist yet
+            for (auto k(size()); k < n; ++k)
+              new (data_ + k) T();
+        }
 #if defined(VITA_SMALL_VECTOR_LOW_MEMORY)
-        else
+        else if (n < size())
           std::fill(begin() + n, end(), T());
 #endif
       }
